@@ -24,14 +24,14 @@ def cloud(draw, dmin=2, dmax=5, nonneg=False, allow_few=False):
         k = draw(st.integers(d + 1, d + 9))
     lo = 0.0 if nonneg else -5.0
     if kind == "flat":
-        # more points than dimensions, all in an r-dimensional affine subspace (r < d), some of its extents thin (down to 1e-3
+        # more points than dimensions, all in an r-dimensional affine subspace (r < d), some of its extents thin (down to 1e-6
         # of the largest) but unambiguous: convex combinations of r + 1 anchors v0 + t_j u_j
         r = draw(st.integers(1, d - 1))
         if draw(st.booleans()):
             k = draw(st.integers(10 * d, 12 * d))          # many points: other numerical paths in the dimension estimate of the library
         v0 = np.asarray(draw(gens.array((d,), 0.5, 3.0, styles=("raw",))))
         U = np.asarray(draw(gens.array((r, d), 0.0, 2.0, styles=("raw", "sparse")))).reshape(r, d) + np.eye(d)[:r] * 0.5
-        t = np.asarray([draw(st.sampled_from([1.0, 1.0, 1e-1, 1e-2, 1e-3])) for _ in range(r)])
+        t = np.asarray([draw(st.sampled_from([1.0, 1.0, 1e-1, 1e-2, 1e-3, 1e-4, 1e-5, 1e-6])) for _ in range(r)])
         V = np.vstack([v0, v0 + t[:, None] * U])
         W = np.asarray(draw(gens.array((k, r + 1), 0.0, 1.0, styles=("raw", "sparse")))).reshape(k, r + 1) + 1e-3
         P = np.vstack([V, (W / W.sum(axis=1, keepdims=True)) @ V])
@@ -359,6 +359,7 @@ RULE = (
     "membership LP and equality of support functions in 12 random directions plus +-axes with the LP optimum over hull(P) cap plane. "
     "Non-trivial = the projection moves the point, a boundary hit, a slice (lattice / few points / through a vertex flagged separately)."
     " Slice: also flat clouds (more points than dimensions in an r < d dimensional affine subspace, thin extents down to 1e-3) and tied vertices (several rows whose sums agree up to the last bit, c equal to one of them); oracle = exact enumeration (rows on the plane + crossings of all below/above pairs) over the band |c1-c| <= 1e-9 (upper envelope always, lower envelope when rows lie clearly beyond the plane on both sides). Boundary hit: vector lengths 1e-12..1e6 and cloud sizes 1e-6..1e3, alpha(s b) = alpha(b)/s."
+    " Flat clouds have extents down to 1e-6 of the largest."
 )
 
 # ------------------------------------------------------------------------------------------------
